@@ -61,6 +61,52 @@ Theorem C16_exception_only_variant_refuted : exists tr s,
 Proof. exact exception_only_variant_refuted. Qed.
 Print Assumptions C16_exception_only_variant_refuted.
 
+(* AUDIT finding: "last completed plan" read as "last run whose wait() returned" (kept_w) instead of "last
+   run whose block ended" (kept).  The code as it is removes jobs.bak BEFORE wait(): a run killed while
+   waiting for its jobs, or whose wait() raises, has already forgotten the previous plan - refuted
+   (key C16:backup-dropped-before-wait, fixes/C16-1.diff)                                          *)
+Theorem C16_wait_based_keep_refuted : exists tr s,
+  run init tr = Some s /\ ~ incl (kept_w tr) (names (jobs s) ++ names (bakl s)) /\ In 1 (orphans s).
+Proof. exact wait_based_keep_refuted. Qed.
+Print Assumptions C16_wait_based_keep_refuted.
+
+(* With the repaired order (step_late: wait() first, rmtree(jobs.bak) only after it returned) the stronger
+   statement holds after any history: kills anywhere (also anywhere inside __exit__), wait() raising,
+   exceptions of any class, any interleaving of processes                                          *)
+Theorem C16_late_backup_keeps : forall tr s, run_late init tr = Some s ->
+  incl (kept_w tr) (names (jobs s) ++ names (bakl s)).
+Proof. exact late_backup_keeps. Qed.
+Print Assumptions C16_late_backup_keeps.
+
+Theorem C16_late_never_orphan : forall tr s j, run_late init tr = Some s -> In j (kept_w tr) -> ~ In j (orphans s).
+Proof. exact late_never_orphan. Qed.
+Print Assumptions C16_late_never_orphan.
+
+Theorem C16_late_completed_exact : forall tr p s,
+  run_late init (tr ++ [Done p]) = Some s ->
+  same_set (names (jobs s)) (subs_of p (tr ++ [Done p])) /\ NoDup (names (jobs s)) /\
+  (forall l, In l (jobs s) -> snd l = dir_of (fst l)) /\
+  bak s = None /\ lock s = None.
+Proof. exact late_completed_exact. Qed.
+Print Assumptions C16_late_completed_exact.
+
+Theorem C16_late_only_completed_exit_forgets : forall s e s', step_late s e = Some s' ->
+  (forall p n, e <> RmEntry p n) ->
+  incl (names (jobs s) ++ names (bakl s)) (names (jobs s') ++ names (bakl s')).
+Proof. exact late_only_completed_exit_forgets. Qed.
+Print Assumptions C16_late_only_completed_exit_forgets.
+
+Theorem C16_late_exclusive : forall tr s p q, run_late init tr = Some s ->
+  is_out (ph s p) = false -> is_out (ph s q) = false -> p = q.
+Proof. exact late_exclusive. Qed.
+Print Assumptions C16_late_exclusive.
+
+(* Mutual exclusion.  That an fcntl lock on one file excludes two PROCESSES is an assumption, written into
+   the model as the guard of `Lock` (enabled only while `lock = None`) and observed on the implementation
+   by the two- and three-process probes; it is not derived.  What the next five statements add is the
+   protocol around it: the lock is the first thing taken and the last thing released (or dies with the
+   process), so a process is anywhere between __enter__ and the end of __exit__ iff it is the holder, and
+   every change of the index is made by the holder.                                                 *)
 (* Two processes never hold the same experiment at once *)
 Theorem C16_exclusive : forall tr s p q, run init tr = Some s ->
   is_out (ph s p) = false -> is_out (ph s q) = false -> p = q.
